@@ -429,12 +429,14 @@ impl Context {
         while !children.is_empty() {
             let mut nexts = Vec::new();
             for t in &children {
+                // the acts of a step are chained one after another, follow the chain
+                // through the acts that are already completed
+                nexts.extend_from_slice(&t.children());
                 if t.state().is_completed() {
                     continue;
                 }
                 t.set_state(TaskState::Cancelled);
                 self.emit_task(t)?;
-                nexts.extend_from_slice(&t.children());
             }
 
             children = nexts;
